@@ -234,6 +234,26 @@ func hashList(hs []uint64) string {
 	return strings.Join(parts, ",")
 }
 
+// aliased returns (a', b') with the same values as (a, b) but sharing one backing array when one
+// name is, by value, a prefix of the other (as `n[:i]` and `n` do in the forwarder's tables);
+// ok=false when neither is a prefix of the other.  The result of a relation must not depend on
+// whether its operands share memory.
+func aliased(a, b enc.Name) (enc.Name, enc.Name, bool) {
+	long, short, swap := a, b, false
+	if len(b) > len(a) {
+		long, short, swap = b, a, true
+	}
+	for i := range short {
+		if short[i].Typ != long[i].Typ || string(short[i].Val) != string(long[i].Val) {
+			return nil, nil, false
+		}
+	}
+	if swap {
+		return long[:len(short)], long, true
+	}
+	return long, long[:len(short)], true
+}
+
 func exec(op string) string {
 	f := common.Fields(op)
 	switch f[0] {
@@ -241,13 +261,31 @@ func exec(op string) string {
 		return "ok"
 	case "cmp":
 		a, b := common.ParseNameText(f[1]), common.ParseNameText(f[2])
-		return strconv.Itoa(a.Compare(b))
+		r := strconv.Itoa(a.Compare(b))
+		if x, y, ok := aliased(a, b); ok {
+			if r2 := strconv.Itoa(x.Compare(y)); r2 != r {
+				return r + "|on-slices-of-one-array:" + r2
+			}
+		}
+		return r
 	case "eq":
 		a, b := common.ParseNameText(f[1]), common.ParseNameText(f[2])
-		return strconv.FormatBool(a.Equal(b))
+		r := strconv.FormatBool(a.Equal(b))
+		if x, y, ok := aliased(a, b); ok {
+			if r2 := strconv.FormatBool(x.Equal(y)); r2 != r {
+				return r + "|on-slices-of-one-array:" + r2
+			}
+		}
+		return r
 	case "pfx":
 		a, b := common.ParseNameText(f[1]), common.ParseNameText(f[2])
-		return strconv.FormatBool(a.IsPrefix(b))
+		r := strconv.FormatBool(a.IsPrefix(b))
+		if x, y, ok := aliased(a, b); ok {
+			if r2 := strconv.FormatBool(x.IsPrefix(y)); r2 != r {
+				return r + "|on-slices-of-one-array:" + r2
+			}
+		}
+		return r
 	case "rt":
 		a := common.ParseNameText(f[1])
 		e := a.Bytes()
